@@ -758,7 +758,7 @@ theorem enc_group {C : CodecNew} (hC : Lawful C) {G : Group} (hG : G.WF) {e : En
       rw [hmax, List.nil_append, ← hbod]; rfl
     have hdl : G.dataShards.length = G.d := by
       simp only [Group.dataShards, Group.bodies, List.length_map, hG.count]
-    have hparl : (G.parityShards C).length = G.p := hC.enc_length G.d G.p _ hdl
+    have hparl : (G.parityShards C).length = G.p := hC.enc_length G.d G.p _ hG.d_pos hG.p_pos hG.n_le hdl
     have hbase : (G.base + BitVec.ofNat 32 G.d).toNat = G.base.toNat + G.d := by
       have := hG.below
       have := (pawsOf G.n).isLt
